@@ -1,4 +1,10 @@
 import DosModel.Model.P2PSym
+import DosModel.Model.ConnSym
+import DosModel.Model.ConnTableCfg
 import DosModel.Gen.P2PFlow
-def main : IO Unit :=
-  Dos.lineLoop (Dos.P2PSym.driverStep Dos.Gen.decodeChecksAnything Dos.Gen.runKeepsDrainingErrors)
+def c16Step (line : String) : String :=
+  match Dos.words line with
+  | ["hist", script] =>
+    Dos.ConnSym.stepHist ⟨Dos.ConnTable.Cfg.code, Dos.Gen.decodeChecksAnything, Dos.Gen.runKeepsDrainingErrors⟩ script
+  | _ => Dos.P2PSym.driverStep Dos.Gen.decodeChecksAnything Dos.Gen.runKeepsDrainingErrors line
+def main : IO Unit := Dos.lineLoop c16Step
